@@ -5,7 +5,8 @@ import math
 from vcheck import Case, gnlist, gz
 import tgen
 
-OPS = {"to_tenmat", "to_sptenmat", "sptenmat_back", "sptenmat_full", "spmatrix", "from_array", "kfull", "tfull", "sumfull"}
+OPS = {"to_tenmat", "to_sptenmat", "sptenmat_back", "sptenmat_full", "spmatrix", "from_array", "kfull", "tfull", "sumfull",
+       "tenmat_ctor", "sptenmat_ctor"}
 
 
 # ---------------------------------------------------------------------------------------- generators
@@ -42,6 +43,122 @@ def rand_t(rng, shp, sparse_core=False):
     core = tgen.rand_dense(rng, cshape, rng.choice([0.5, 1.0]))
     return {"cshape": cshape, "core": core, "factors": [rand_matrix(rng, d, c) for d, c in zip(shp, cshape)],
             "sparse_core": sparse_core}
+
+
+def _forms(rng, r, c, N):
+    """the argument forms that denote the partition (r, c): both, rdims only (if c is the ascending complement), cdims only"""
+    forms = [(r, c)]
+    if c == [m for m in range(N) if m not in r]:
+        forms.append((r, None))
+    if r == [m for m in range(N) if m not in c]:
+        forms.append((None, c))
+    return rng.choice(forms)
+
+
+def _bad_dims(rng, N):
+    """mode lists that are not an ordered partition of range(N): repeated / missing / out-of-range entries"""
+    while True:
+        r = [rng.randint(0, N) for _ in range(rng.randint(0, N + 1))]
+        c = [rng.randint(0, N) for _ in range(rng.randint(0, N + 1))]
+        if sorted(r + c) != list(range(N)):
+            return r, c
+
+
+def gen_ctor_cases(rng, big):
+    cases = []
+    # ---- tenmat
+    for _ in range(260 if big else 70):
+        tshape = tgen.rand_shape(rng, maxn=4, maxcells=36)
+        N = len(tshape)
+        r, c = rng.choice(ordered_partitions(N))
+        R = math.prod(tshape[k] for k in r)
+        C = math.prod(tshape[k] for k in c)
+        rd, cd = _forms(rng, r, c, N)
+        kind = rng.choice(["ok", "ok", "ok", "ok1d", "notshape", "baddims", "badcount", "regroup", "3d", "1d_notshape",
+                           "emptydata", "none", "oob"])
+        a = {"dshape": [R, C], "rd": rd, "cd": cd, "tshape": tshape, "kind": kind}
+        if kind == "ok1d":                       # 1-d data: becomes a row vector, so the row modes must have one cell
+            a["dshape"] = [R * C]
+            if R != 1:
+                a["rd"], a["cd"] = [], list(rng.sample(range(N), N))
+        elif kind == "notshape":                 # tshape defaults to data.shape: a 2-way tensor
+            a["tshape"] = None
+            r2, c2 = rng.choice(ordered_partitions(2))
+            a["rd"], a["cd"] = _forms(rng, r2, c2, 2)
+        elif kind == "baddims":
+            a["rd"], a["cd"] = _bad_dims(rng, N)
+        elif kind == "badcount":
+            a["dshape"] = [R + rng.choice([0, 1]), C + 1]
+        elif kind == "regroup":                  # right element count, other row / column split (C19-N11 territory)
+            n = R * C
+            divs = [d for d in range(1, n + 1) if n % d == 0]
+            d = rng.choice(divs)
+            a["dshape"] = [d, n // d]
+        elif kind == "3d":
+            a["dshape"] = [R, C, 1] if rng.random() < 0.5 else [1, R, C]
+        elif kind == "1d_notshape":
+            a["dshape"] = [R * C]
+            a["tshape"] = None
+        elif kind == "emptydata":
+            a["dshape"] = rng.choice([[0], [0, 3], [2, 0]])
+            if rng.random() < 0.5:
+                a["rd"], a["cd"], a["tshape"] = rng.choice([(None, None, None), ([], None, None), (None, [], []), ([], [], [])])
+        elif kind == "none":
+            a["dshape"] = None
+            if rng.random() < 0.6:
+                a["rd"], a["cd"], a["tshape"] = rng.choice([(None, None, None), ([], [], None), (None, None, [])])
+        elif kind == "oob":
+            a["rd"], a["cd"] = [N], list(range(N))
+        n = math.prod(a["dshape"]) if a["dshape"] is not None else 0
+        a["data"] = [rng.randint(-3, 4) for _ in range(n)]
+        cases.append(Case("tenmat_ctor", a, kind in ("ok", "ok1d", "notshape", "regroup") and n > 1))
+    # ---- sptenmat
+    for _ in range(320 if big else 90):
+        tshape = tgen.rand_shape(rng, maxn=4, maxcells=36)
+        N = len(tshape)
+        r, c = rng.choice(ordered_partitions(N))
+        R = math.prod(tshape[k] for k in r)
+        C = math.prod(tshape[k] for k in c)
+        rd, cd = _forms(rng, r, c, N)
+        kind = rng.choice(["ok", "ok", "ok", "dups", "dups", "cancel", "zeros", "empty", "badrow", "badcol", "baddims",
+                           "nodims", "nothing"])
+        k = rng.randint(1, min(8, R * C + 2))
+        if kind in ("ok", "zeros"):
+            cells = rng.sample([(i, j) for i in range(R) for j in range(C)], min(k, R * C))
+        else:
+            cells = [(rng.randrange(R), rng.randrange(C)) for _ in range(k)]
+        vals = [rng.choice([-3, -2, -1, 1, 2, 3, 4]) for _ in cells]
+        if kind == "dups" and cells:
+            for _d in range(rng.randint(1, 3)):
+                cells.append(rng.choice(cells))
+                vals.append(rng.choice([-2, 1, 3]))
+        if kind == "cancel" and cells:           # duplicates summing to zero must disappear
+            i = rng.randrange(len(cells))
+            cells.append(cells[i])
+            vals.append(-vals[i])
+        if kind == "zeros" and cells:
+            vals[rng.randrange(len(vals))] = 0
+        order = list(range(len(cells)))
+        rng.shuffle(order)
+        cells = [cells[i] for i in order]
+        vals = [vals[i] for i in order]
+        a = {"subs": [list(x) for x in cells], "vals": vals, "rd": rd, "cd": cd, "tshape": tshape, "kind": kind}
+        if kind == "empty":
+            a["subs"], a["vals"] = ([], []) if rng.random() < 0.5 else (None, None)
+        elif kind == "badrow":
+            a["subs"][rng.randrange(len(cells))][0] = R + rng.choice([0, 0, 1])
+        elif kind == "badcol":
+            a["subs"][rng.randrange(len(cells))][1] = C + rng.choice([0, 0, 2])
+        elif kind == "baddims":
+            a["rd"], a["cd"] = _bad_dims(rng, N)
+        elif kind == "nodims":
+            a["rd"], a["cd"] = None, None
+        elif kind == "nothing":
+            a["subs"], a["vals"], a["rd"], a["cd"] = None, None, None, None
+            if rng.random() < 0.5:
+                a["tshape"] = []
+        cases.append(Case("sptenmat_ctor", a, kind in ("ok", "dups", "cancel", "zeros") and len(cells) > 1))
+    return cases
 
 
 def gen_cases_conv(rng, tier):
@@ -107,8 +224,25 @@ def gen_cases_conv(rng, tier):
         R = math.prod(tshape[k] for k in r)
         C = math.prod(tshape[k] for k in c)
         mat = tgen.rand_dense(rng, [R, C], rng.choice([0.0, 0.3, 0.6, 1.0]))
-        cases.append(Case("from_array", {"tshape": tshape, "rd": r, "cd": c, "mshape": [R, C], "mdata": mat,
-                                         "coo": rng.random() < 0.5}, any(mat)))
+        a = {"tshape": tshape, "rd": r, "cd": c, "mshape": [R, C], "mdata": mat, "coo": rng.random() < 0.5}
+        if a["coo"]:
+            # the scipy matrix as raw triples in a random stored order, sometimes with a position split into two stored
+            # values (scipy sums them) or with an explicitly stored zero
+            trip = [[k % R, k // R, v] for k, v in enumerate(mat) if v != 0]
+            rng.shuffle(trip)
+            style = rng.choice(["plain", "plain", "split", "zero"])
+            if style == "split" and trip:
+                i, j, v = trip[rng.randrange(len(trip))]
+                w = rng.choice([-2, 1, 3])
+                trip[trip.index([i, j, v])] = [i, j, v - w]
+                trip.insert(rng.randrange(len(trip) + 1), [i, j, w])
+            if style == "zero":
+                trip.insert(rng.randrange(len(trip) + 1), [rng.randrange(R), rng.randrange(C), 0])
+            a["trip"] = trip
+        cases.append(Case("from_array", a, any(mat)))
+    # ---------------- constructors: tenmat(data, rdims, cdims, tshape) / sptenmat(subs, vals, rdims, cdims, tshape),
+    # well-formed requests in every argument form + a malformed stream (the guard model must predict accept / reject)
+    cases += gen_ctor_cases(rng, big)
     # ---------------- Kruskal -> dense
     kshapes = [[3], [1], [2, 3], [3, 1], [2, 3, 4], [4, 3, 2], [2, 1, 3], [2, 3, 2, 2], [3, 2, 1, 4], [2, 1, 3, 2, 2], [2, 2, 2, 2, 3]]
     kshapes += [tgen.rand_shape(rng, maxn=5, maxcells=96) for _ in range(60 if big else 10)]
@@ -128,8 +262,6 @@ def gen_cases_conv(rng, tier):
         parts = []
         for _k in range(rng.randint(1, 4)):
             kind = rng.choice(["d", "s", "k", "t"])
-            if kind == "k" and len(shp) == 1:
-                kind = "d"               # 1-way Kruskal parts hit A-01 inside full(); covered by the kfull stream
             if kind == "d":
                 parts.append({"kind": "d", "data": tgen.rand_dense(rng, shp, rng.choice([0.5, 1.0]))})
             elif kind == "s":
@@ -180,6 +312,12 @@ def _obs_sptenmat(np, M):
             "tshape": [int(d) for d in M.tshape], "shape": [int(d) for d in M.shape], "nnz": int(M.nnz)}
 
 
+def _obs_coo(np, Cm):
+    """scipy coo_matrix -> raw stored triples"""
+    return {"shape": [int(d) for d in Cm.shape], "subs": [[int(i), int(j)] for i, j in zip(Cm.row, Cm.col)],
+            "vals": [tgen.exact(x) for x in Cm.data]}
+
+
 def _sub(f):
     try:
         return f()
@@ -202,19 +340,41 @@ def run_conv(c):
             S = tgen.mk_sptensor(ttb, np, a["shape"], a["subs"], a["vals"])
             M = S.to_sptenmat(_arr(np, a["rd"]), _arr(np, a["cd"]), a["cy"])
             if c.op == "to_sptenmat":
-                return {"ok": _obs_sptenmat(np, M), "double": _sub(lambda: tgen.obs_dense(np, M.double().toarray()))}
+                return {"ok": _obs_sptenmat(np, M), "double": _sub(lambda: tgen.obs_dense(np, M.double().toarray())),
+                        "coo": _sub(lambda: _obs_coo(np, M.double()))}
             if c.op == "sptenmat_back":
                 return {"ok": tgen.obs_sparse(np, M.to_sptensor())}
             return {"ok": _obs_tenmat(np, M.full())}
         if c.op == "spmatrix":
             S = tgen.mk_sptensor(ttb, np, a["shape"], a["subs"], a["vals"])
-            return {"ok": tgen.obs_dense(np, S.spmatrix().toarray())}
+            Cm = S.spmatrix()
+            return {"ok": tgen.obs_dense(np, Cm.toarray()), "coo": _obs_coo(np, Cm)}
         if c.op == "from_array":
             A = tgen.np_dense(np, a["mshape"], a["mdata"])
             if a["coo"]:
-                A = sps.coo_matrix(A)
+                t = a["trip"]
+                A = sps.coo_matrix((np.array([x[2] for x in t], dtype=float),
+                                    (np.array([x[0] for x in t], dtype=int), np.array([x[1] for x in t], dtype=int))),
+                                   shape=tuple(a["mshape"]))
             M = ttb.sptenmat.from_array(A, _arr(np, a["rd"]), _arr(np, a["cd"]), tuple(a["tshape"]))
             return {"ok": _obs_sptenmat(np, M)}
+        if c.op == "tenmat_ctor":
+            data = None if a["dshape"] is None else tgen.np_dense(np, a["dshape"], a["data"])
+            ts = None if a["tshape"] is None else tuple(a["tshape"])
+            M = ttb.tenmat(data, _arr(np, a["rd"]), _arr(np, a["cd"]), ts)
+            out = {"ok": _obs_tenmat(np, M)}
+            if M.data.size > 0:
+                T = M.to_tensor()
+                out["back"] = tgen.obs_dense(np, T)
+                out["again"] = _obs_tenmat(np, T.to_tenmat(M.rindices.copy(), M.cindices.copy()))
+            return out
+        if c.op == "sptenmat_ctor":
+            subs = None if a["subs"] is None else np.array(a["subs"], dtype=int).reshape((len(a["subs"]), 2))
+            vals = None if a["vals"] is None else np.array(a["vals"], dtype=float).reshape((len(a["vals"]), 1))
+            M = ttb.sptenmat(subs, vals, _arr(np, a["rd"]), _arr(np, a["cd"]), tuple(a["tshape"]))
+            S = M.to_sptensor()
+            return {"ok": _obs_sptenmat(np, M), "back": tgen.obs_sparse(np, S),
+                    "again": _obs_sptenmat(np, S.to_sptenmat(M.rdims.copy(), M.cdims.copy()))}
         if c.op == "kfull":
             K = _mk_k(ttb, np, a["K"], a["shape"])
             return {"ok": tgen.obs_dense(np, K.full()), "double": _sub(lambda: tgen.obs_dense(np, K.double())),
@@ -274,6 +434,11 @@ def _gstm2(ob):
     return f"(mkSTM {gnmat(ob['subs'])} {gzlist(ob['vals'])} {gnlist(ob['r'])} {gnlist(ob['c'])} {gnlist(ob['tshape'])})"
 
 
+def _gcoo(co):
+    from vcheck import gnmat, gzlist
+    return f"(mkCoo {gnlist(co['shape'])} {gnmat(co['subs'])} {gzlist(co['vals'])})"
+
+
 def _valid_request(a, N):
     """does the request denote an ordered partition of the modes? (what the model's gather_wrap_dims + permutation test accept)"""
     r, c, cy = a["rd"], a["cd"], a["cy"]
@@ -315,13 +480,13 @@ def check_conv(c, o):
             # scipy view: the dense matrix of the triples (pure-python scatter of the raw triples)
             if not _ints_dense(o["double"]) or o["double"]["shape"] != ob["shape"]:
                 return "false"
-            R = ob["shape"][0]
-            want = [0] * (ob["shape"][0] * ob["shape"][1])
-            for (i, j), v in zip(ob["subs"], ob["vals"]):
-                want[i + R * j] += v
-            if want != o["double"]["data"]:
+            co = o.get("coo")
+            if not isinstance(co, dict) or "vals" not in co or not tgen.all_int(co["vals"]):
                 return "false"
-            return f"stm_ok {call} (Some {_gstm2(ob)}) {S} {gnlist(ob['shape'])} {ob['nnz']}"
+            dbl = (f"stm_double_ok {_gstm2(ob)} {_gcoo(co)} {tgen.gdense(o['double']['shape'], o['double']['data'])}")
+            scall = f"(zto_sptenmat_sorted {S} {_gopt_nlist(a['rd'])} {_gopt_nlist(a['cd'])} {_gcy(a['cy'])})"
+            return (f"stm_ok {call} (Some {_gstm2(ob)}) {S} {gnlist(ob['shape'])} {ob['nnz']} && "
+                    f"stm_sorted_ok {scall} (Some {_gstm2(ob)}) && {dbl}")
         if c.op == "sptenmat_back":
             if exc:
                 return f"stm_back_ok {call} {S} None"
@@ -339,17 +504,59 @@ def check_conv(c, o):
         if exc or not _ints_dense(o["ok"]):
             return "false"
         S = tgen.gsparse(a["shape"], a["subs"], a["vals"])
-        return f"dense_eqb (full 0%Z {S}) {tgen.gdense(o['ok']['shape'], o['ok']['data'])}"
-    if c.op == "from_array":
-        if exc:
+        co = o.get("coo")
+        if not isinstance(co, dict) or not tgen.all_int(co["vals"]):
             return "false"
+        return f"spmatrix_ok {S} (Some {_gcoo(co)}) {tgen.gdense(o['ok']['shape'], o['ok']['data'])}"
+    if c.op == "from_array":
+        from vcheck import gnmat, gzlist
+        A = tgen.gdense(a["mshape"], a["mdata"])
+        rdcd = f"(Some {gnlist(a['rd'])}) (Some {gnlist(a['cd'])}) {gnlist(a['tshape'])}"
+        if a["coo"]:
+            Cm = f"(mkCoo {gnlist(a['mshape'])} {gnmat([x[:2] for x in a['trip']])} {gzlist([x[2] for x in a['trip']])})"
+            model = f"(zfrom_array_coo {Cm} {rdcd})"
+        else:
+            model = f"(zfrom_array_dense {A} {rdcd})"
+        if exc:
+            return f"from_array_ok {model} None {A}"
         ob = o["ok"]
         if not tgen.all_int(ob["vals"]) or ob["nnz"] != len(ob["subs"]):
             return "false"
-        M = f"(mkTM {tgen.gdense(a['mshape'], a['mdata'])} {gnlist(a['rd'])} {gnlist(a['cd'])} {gnlist(a['tshape'])})"
+        # ... and, as before, against to_sptenmat of the tensor the matrix denotes
+        M = f"(mkTM {A} {gnlist(a['rd'])} {gnlist(a['cd'])} {gnlist(a['tshape'])})"
         S = f"(to_sptensor 0%Z zisz (tenmat_to_tensor 0%Z {M}))"
         call = f"(zto_sptenmat {S} (Some {gnlist(a['rd'])}) (Some {gnlist(a['cd'])}) None)"
-        return f"stm_ok {call} (Some {_gstm2(ob)}) {S} {gnlist(ob['shape'])} {ob['nnz']}"
+        return (f"from_array_ok {model} (Some {_gstm2(ob)}) {A} && "
+                f"stm_ok {call} (Some {_gstm2(ob)}) {S} {gnlist(ob['shape'])} {ob['nnz']}")
+    if c.op == "tenmat_ctor":
+        D = "None" if a["dshape"] is None else f"(Some {tgen.gdense(a['dshape'], a['data'])})"
+        ts = "None" if a["tshape"] is None else f"(Some {gnlist(a['tshape'])})"
+        call = f"(ztm_ctor {D} {_gopt_nlist(a['rd'])} {_gopt_nlist(a['cd'])} {ts})"
+        if exc:
+            return f"tm_ctor_ok {call} None None None"
+        ob = o["ok"]
+        if not _ints_dense(ob["data"]) or ob["shape"] != ob["data"]["shape"][:len(ob["shape"])]:
+            return "false"
+        if "back" not in o:
+            return f"tm_ctor_ok {call} (Some {_gtm(ob)}) None None"
+        if not _ints_dense(o["back"]) or not _ints_dense(o["again"]["data"]):
+            return "false"
+        return (f"tm_ctor_ok {call} (Some {_gtm(ob)}) (Some {tgen.gdense(o['back']['shape'], o['back']['data'])}) "
+                f"(Some {_gtm(o['again'])})")
+    if c.op == "sptenmat_ctor":
+        from vcheck import gnmat, gzlist
+        subs = "None" if a["subs"] is None else f"(Some {gnmat(a['subs'])})"
+        vals = "None" if a["vals"] is None else f"(Some {gzlist(a['vals'])})"
+        call = f"(zstm_ctor {subs} {vals} {_gopt_nlist(a['rd'])} {_gopt_nlist(a['cd'])} {gnlist(a['tshape'])})"
+        if exc:
+            return f"stm_ctor_ok {call} None None None"
+        ob, bk, ag = o["ok"], o["back"], o["again"]
+        if not (tgen.all_int(ob["vals"]) and tgen.all_int(bk["vals"]) and tgen.all_int(ag["vals"])):
+            return "false"
+        if ob["nnz"] != len(ob["subs"]) or bk["nnz"] != len(bk["subs"]) or ag["nnz"] != len(ag["subs"]):
+            return "false"
+        return (f"stm_ctor_ok {call} (Some {_gstm2(ob)}) (Some {tgen.gsparse(bk['shape'], bk['subs'], bk['vals'])}) "
+                f"(Some {_gstm2(ag)})")
     if c.op == "kfull":
         K = _gk(a["K"])
         if exc:
@@ -433,8 +640,107 @@ def _den_t(T, i):
     return tot
 
 
+def _partition_of(rd, cd, N):
+    """(r, c) the two mode lists denote, or None when they are not an ordered partition of range(N)"""
+    if rd is None and cd is None:
+        return None
+    r = rd if rd is not None else [m for m in range(N) if m not in cd]
+    c = cd if cd is not None else [m for m in range(N) if m not in rd]
+    return (r, c) if sorted(r + c) == list(range(N)) else None
+
+
+def _oracle_tm_ctor(a, o):
+    """property on pyttb's own output: an accepted tenmat has a mode partition and the element count of its tensor, converts
+    back to a tensor whose entry i sits at (sub2ind i[r], sub2ind i[c]) of the re-matricised form, with the same data list"""
+    empty_args = not a["rd"] and not a["cd"] and not a["tshape"]
+    n = 0 if a["dshape"] is None else math.prod(a["dshape"])
+    if n == 0:
+        if empty_args:
+            return None if "exc" not in o and o["ok"]["tshape"] == [] and o["ok"]["data"]["data"] == [] else "tenmat() is not the empty object"
+        return None if "exc" in o else "empty data with non-empty rdims / cdims / tshape was accepted"
+    ds = a["dshape"]
+    if len(ds) == 1:
+        ds = [1, ds[0]] if a["tshape"] is not None else None
+    admissible = ds is not None and len(ds) == 2
+    if admissible:
+        ts = a["tshape"] if a["tshape"] is not None else ds
+        part = _partition_of(a["rd"], a["cd"], len(ts))
+        admissible = math.prod(ts) == n and part is not None
+    if not admissible:
+        return None if "exc" in o else "a tenmat whose modes / element count do not describe a tensor was accepted"
+    if "exc" in o:
+        return f"admissible tenmat constructor call raised {o['exc']}: {o.get('msg')}"
+    r, c_ = part
+    ob = o["ok"]
+    if ob["r"] != r or ob["c"] != c_ or ob["tshape"] != ts or ob["data"]["data"] != a["data"]:
+        return "constructed tenmat reports other modes / shape / data than it was given"
+    if "back" not in o or o["back"]["shape"] != ts:
+        return "to_tensor() of an accepted tenmat has the wrong shape"
+    rs, cs = [ts[k] for k in r], [ts[k] for k in c_]
+    R, C = math.prod(rs), math.prod(cs)
+    ag = o["again"]
+    if ag["data"]["shape"] != [R, C] or ag["data"]["data"] != a["data"]:
+        return "to_tenmat(to_tensor(M)) does not have M's entries"
+    for i in tgen.all_subs(ts):
+        if ag["data"]["data"][_lin(rs, [i[k] for k in r]) + R * _lin(cs, [i[k] for k in c_])] != o["back"]["data"][_lin(ts, i)]:
+            return f"tensor entry {i} of to_tensor(M) is not at its matrix position"
+    return None
+
+
+def _oracle_stm_ctor(a, o):
+    """property on pyttb's own output: accepted iff the triples are in range along a mode partition; the stored triples are
+    strictly increasing (row, col), nonzero, and hold the per-position sums; to_sptensor / to_sptenmat round-trips"""
+    ts = a["tshape"]
+    N = len(ts)
+    subs = a["subs"] or []
+    vals = a["vals"] or []
+    if a["rd"] is None and a["cd"] is None:
+        if a["subs"] is None and a["vals"] is None:
+            if "exc" in o or o["ok"]["subs"] != [] or o["ok"]["tshape"] != []:
+                return "sptenmat() is not the empty object"
+            return None if o["ok"]["nnz"] == 0 else f"sptenmat() stores no value but reports nnz = {o['ok']['nnz']}"
+        return None if "exc" in o else "subs / vals without rdims and cdims were accepted"
+    part = _partition_of(a["rd"], a["cd"], N)
+    ok = part is not None
+    if ok:
+        r, c_ = part
+        R, C = math.prod(ts[k] for k in r), math.prod(ts[k] for k in c_)
+        ok = all(0 <= i < R and 0 <= j < C for i, j in subs)
+    if not ok:
+        return None if "exc" in o else "a sptenmat with out-of-range indices or without a mode partition was accepted"
+    if "exc" in o:
+        return f"admissible sptenmat constructor call raised {o['exc']}: {o.get('msg')}"
+    want = {}
+    for (i, j), v in zip(subs, vals):
+        want[(i, j)] = want.get((i, j), 0) + v
+    want = {k: v for k, v in want.items() if v != 0}
+    ob = o["ok"]
+    got = [(tuple(x), v) for x, v in zip(ob["subs"], ob["vals"])]
+    if dict(got) != want or len(got) != len(want) or ob["nnz"] != len(want):
+        return "stored triples do not hold the per-position sums of the given values"
+    if [k for k, _ in got] != sorted(want):
+        return "stored triples are not in increasing (row, col) order"
+    if ob["r"] != r or ob["c"] != c_ or ob["tshape"] != ts:
+        return "constructed sptenmat reports other modes / shape than it was given"
+    rs, cs = [ts[k] for k in r], [ts[k] for k in c_]
+    bk = o["back"]
+    img = {}
+    for sub, v in zip(bk["subs"], bk["vals"]):
+        img[(_lin(rs, [sub[k] for k in r]), _lin(cs, [sub[k] for k in c_]))] = v
+    if img != want or bk["shape"] != ts or bk["nnz"] != len(want):
+        return "to_sptensor() of an accepted sptenmat does not denote the same array"
+    ag = o["again"]
+    if ag["subs"] != ob["subs"] or ag["vals"] != ob["vals"]:
+        return "to_sptenmat(to_sptensor(M)) is not M"
+    return None
+
+
 def oracle_conv(c, o):
     a = c.args
+    if c.op == "tenmat_ctor":
+        return _oracle_tm_ctor(a, o)
+    if c.op == "sptenmat_ctor":
+        return _oracle_stm_ctor(a, o)
     if c.op in ("to_tenmat", "to_sptenmat", "sptenmat_back", "sptenmat_full"):
         shp = a["shape"]
         N = len(shp)
@@ -520,45 +826,12 @@ def oracle_conv(c, o):
 
 
 # ---------------------------------------------------------------------------------------- known findings
-def _empty_side(c):
-    a = c.args
-    N = len(a["shape"])
-    if not _valid_request(a, N):
-        return False
-    r, cc = _resolve(a, N)
-    return len(r) == 0 or len(cc) == 0
-
-
+# (A-01, A-02, A-02b, N-C01-2 are repaired in /repo: no trigger, no witness — a regression is reported as a violation)
 TRIGGERS = {
-    "kruskal_1way": lambda c: c.op == "kfull" and len(c.args["shape"]) == 1,
     "kruskal_rank0": lambda c: c.op == "kfull" and len(c.args["K"]["weights"]) == 0 and len(c.args["shape"]) > 1,
-    "sptenmat_empty_side_back": lambda c: c.op == "sptenmat_back" and bool(c.args["subs"]) and _empty_side(c),
-    "tucker_sparse_core_1way": lambda c: c.op == "tfull" and c.args["T"].get("sparse_core") and len(c.args["shape"]) == 1,
-    "sptenmat_full_no_nonzeros": lambda c: c.op == "sptenmat_full" and not c.args["subs"] and _valid_request(c.args, len(c.args["shape"])),
+    "from_array_explicit_zero": lambda c: c.op == "from_array" and c.args["coo"] and any(x[2] == 0 for x in c.args["trip"]),
+    "sptenmat_empty_ctor_nnz": lambda c: c.op == "sptenmat_ctor" and all(c.args[k] is None for k in ("subs", "vals", "rd", "cd")),
 }
-
-
-def _w_a01():
-    import numpy as np
-    import pyttb as ttb
-    try:
-        K = ttb.ktensor([np.array([[1.0, 2.0], [3.0, 4.0], [5.0, 6.0]])], np.array([2.0, 3.0]))
-        d = K.full().data
-        return None if [float(x) for x in d.ravel()] == [8.0, 18.0, 28.0] else f"wrong values {d}"
-    except Exception as ex:
-        return f"1-way ktensor.full() raised {type(ex).__name__}: {ex}"
-
-
-def _w_a02():
-    import numpy as np
-    import pyttb as ttb
-    try:
-        S = ttb.sptensor(np.array([[1, 2]]), np.array([[7.0]]), (2, 3))
-        B = S.to_sptenmat(np.array([0, 1]), np.array([], dtype=int)).to_sptensor()
-        ok = B.subs.tolist() == [[1, 2]] and float(B.vals[0, 0]) == 7.0 and tuple(B.shape) == (2, 3)
-        return None if ok else "round trip differs"
-    except Exception as ex:
-        return f"to_sptenmat(rdims=[0,1], cdims=[]).to_sptensor() raised {type(ex).__name__}: {ex}"
 
 
 def _w_rank0():
@@ -572,25 +845,26 @@ def _w_rank0():
         return f"rank-0 ktensor.full() raised {type(ex).__name__}: {ex}"
 
 
-def _w_stm_full():
-    import numpy as np
+def _w_empty_nnz():
     import pyttb as ttb
     try:
-        M = ttb.sptensor(shape=(2, 3, 4)).to_sptenmat(np.array([1]), np.array([2, 0])).full()
-        return None if M.data.shape == (3, 8) and not M.data.any() else "wrong result"
+        n = ttb.sptenmat().nnz
+        return None if n == 0 else f"sptenmat().nnz == {n} with no stored value"
     except Exception as ex:
-        return f"full() of a sptenmat without nonzeros raised {type(ex).__name__}: {ex}"
+        return f"sptenmat().nnz raised {type(ex).__name__}: {ex}"
 
 
-def _w_a02b():
+def _w_from_array_zero():
     import numpy as np
     import pyttb as ttb
+    from scipy import sparse
     try:
-        sc = ttb.sptensor(np.array([[0]]), np.array([[4.0]]), (2,))
-        d = ttb.ttensor(sc, [np.array([[2.0, -1], [1, -1], [2, 3]])]).full().data
-        return None if [float(x) for x in d.ravel()] == [8.0, 4.0, 8.0] else f"wrong values {d}"
+        Cm = sparse.coo_matrix((np.array([0.0, 5.0, 7.0]), (np.array([0, 1, 1]), np.array([0, 1, 2]))), shape=(2, 3))
+        M = ttb.sptenmat.from_array(Cm, np.array([0]), np.array([1]), (2, 3))
+        ok = M.subs.tolist() == [[1, 1], [1, 2]] and M.vals.ravel().tolist() == [5.0, 7.0]
+        return None if ok else f"wrong triples {M.subs.tolist()} {M.vals.ravel().tolist()}"
     except Exception as ex:
-        return f"ttensor.full() with a sparse 1-way core raised {type(ex).__name__}: {ex}"
+        return f"from_array of a scipy matrix with an explicitly stored zero raised {type(ex).__name__}: {ex}"
 
 
-WITNESSES = {"A-02b": _w_a02b, "A-01": _w_a01, "A-02": _w_a02, "N-C01-1": _w_rank0, "N-C01-2": _w_stm_full}
+WITNESSES = {"N-C01-1": _w_rank0, "N-C01-3": _w_empty_nnz, "N-C01-4": _w_from_array_zero}
